@@ -43,6 +43,13 @@ class SetInterp(PyInterp):
                 return (a in b) == isinstance(n.ops[0], ast.In)
         return super().eval(n, env)
 
+    def compare(self, op, a, b, n) -> bool:
+        if isinstance(a, (set, frozenset)) and isinstance(b, (set, frozenset)) and isinstance(op, (ast.Lt, ast.LtE, ast.Gt, ast.GtE, ast.Eq, ast.NotEq)):
+            import operator
+
+            return {ast.Lt: operator.lt, ast.LtE: operator.le, ast.Gt: operator.gt, ast.GtE: operator.ge, ast.Eq: operator.eq, ast.NotEq: operator.ne}[type(op)](a, b)
+        return super().compare(op, a, b, n)
+
     def block(self, stmts, env, f) -> None:
         for s in stmts:
             if isinstance(s, ast.AugAssign) and isinstance(s.target, ast.Name) and isinstance(env.get(s.target.id), set):
@@ -93,6 +100,17 @@ class SetInterp(PyInterp):
             vals = self.eval(n.args[0], env)
             if isinstance(vals, (list, tuple, set, frozenset)):
                 return (any if f.id == "any" else all)(self.truth(v) for v in vals)
+        if isinstance(f, ast.Attribute) and isinstance(f.value, ast.Name) and f.value.id in ("set", "frozenset") and f.value.id not in env:
+            # an unbound method: the first argument must be an instance of exactly that type
+            args = self._args(n, env)
+            kind = set if f.value.id == "set" else frozenset
+            if not args:
+                raise Crash(f"`{src(n)[:50]}`: unbound method {f.value.id}.{f.attr} needs an argument (no operands)")
+            if not isinstance(args[0], kind):
+                raise Crash(f"`{src(n)[:50]}`: descriptor '{f.attr}' for '{f.value.id}' objects doesn't apply to a '{type(args[0]).__name__}' object")
+            if f.attr in ("union", "intersection", "difference") and all(isinstance(a, (set, frozenset, list, tuple)) for a in args[1:]):
+                return getattr(args[0], f.attr)(*args[1:])
+            raise AnalysisError(f"set evaluator: `{src(n)[:60]}` is outside the fragment")
         if isinstance(f, ast.Attribute):
             o = self.eval(f.value, env)
             if isinstance(o, (set, frozenset)):
@@ -369,3 +387,60 @@ def r13_6_requirements(ctx: Ctx, rule: str = "R13.6") -> None:
             run.ok(rule, inst, extra)
         else:
             run.fail(rule, inst, msg, fi=fi)
+
+
+def r_common_columns_exact(ctx: Ctx, rule: str) -> None:
+    """Join.applied_common_columns, evaluated on every small configuration, against its documented meaning."""
+    from .mergeeval import MergeInterp
+
+    run, m = ctx.run, ctx.m
+    run.rule(
+        rule,
+        "Join.applied_common_columns(lhs, rhs) is exactly the key columns common to both operands, restricted to max_columns "
+        "when that is given, and raises when they do not cover min_columns - on every combination of operand column sets "
+        "over two key tags and one non-key tag and every (min_columns, max_columns) choice",
+        expected_min=1,
+    )
+    join = ctx.op_class("Join")
+    f = m.method(join, "applied_common_columns")
+    if f is None:
+        raise AnalysisError("Join.applied_common_columns is missing")
+    k1, k2, n1 = Obj(None, is_key=True, qualified_name="k1"), Obj(None, is_key=True, qualified_name="k2"), Obj(None, is_key=False, qualified_name="n1")
+    tags = (k1, k2, n1)
+    name = {id(k1): "k1", id(k2): "k2", id(n1): "n1"}
+    subsets = [frozenset(c) for r in range(4) for c in itertools.combinations(tags, r)]
+    choices = [(frozenset(), None), (frozenset({k1}), None), (frozenset(), frozenset({k1})), (frozenset(), frozenset({k1, k2})), (frozenset(), frozenset({k1, n1})), (frozenset(), frozenset({n1})), (frozenset({k1}), frozenset({k1, k2})), (frozenset({k1}), frozenset({k1, n1})), (frozenset({n1}), frozenset({k1, n1}))]
+    show = lambda s: "{" + ", ".join(sorted(name[id(t)] for t in s)) + "}" if s is not None else "None"  # noqa: E731
+    n = 0
+    bad = None
+    for mn, mx in choices:
+        op = Obj(join, predicate=None, min_columns=mn, max_columns=mx)
+        for L in subsets:
+            for R in subsets:
+                lhs, rhs = Obj(None, columns=L), Obj(None, columns=R)
+                want = {t for t in L & R if t.attrs["is_key"]}
+                if mx is not None:
+                    want &= mx
+                want_raise = not want >= mn
+                interp = MergeInterp(ctx, Oracle([]), join.module, {})
+                n += 1
+                try:
+                    got = interp.call_function(f, op, [lhs, rhs], {})
+                    raised = None
+                except Crash as e:
+                    got, raised = None, str(e)
+                except _NeedChoice:
+                    raise AnalysisError("applied_common_columns depends on a predicate the evaluator cannot decide")
+                cfg = f"lhs{show(L)} rhs{show(R)} min={show(mn)} max={show(mx)}"
+                if raised is not None and not want_raise:
+                    bad = bad or f"{cfg}: raises ({raised[:60]}) although the common key columns {show(want)} cover min_columns"
+                elif raised is None and want_raise:
+                    bad = bad or f"{cfg}: returns {show(got) if isinstance(got, (set, frozenset)) else got!r} although the common key columns {show(want)} do not cover min_columns"
+                elif raised is None and (not isinstance(got, (set, frozenset)) or set(got) != want):
+                    extra = [t for t in (got or ()) if isinstance(t, Obj) and t not in want] if isinstance(got, (set, frozenset)) else []
+                    why = "a non-key column becomes an equality constraint of the join" if any(not t.attrs["is_key"] for t in extra) else "it is not the set of key columns common to both operands (within max_columns)"
+                    bad = bad or f"{cfg}: returns {show(got) if isinstance(got, (set, frozenset)) else got!r}, expected {show(want)}: {why}"
+    if bad:
+        run.fail(rule, "Join.applied_common_columns:exact", bad, fi=f)
+    else:
+        run.ok(rule, "Join.applied_common_columns:exact", {"configurations": n})
